@@ -88,6 +88,16 @@ def _mut_quota_create(e):
     return False
 
 
+def _mut_race_twice(e):
+    # a name created by two requests of one race
+    if e["ev"] == "CreateRace":
+        for r in e["reqs"]:
+            if r["res"] == "ok":
+                e["reqs"].append(dict(r))
+                return True
+    return False
+
+
 def _placed(e, p):
     return not e["pre"][p] and not e["dup"][p] and not any(f["lo"] <= p < f["hi"] for f in e["failed"])
 
@@ -177,7 +187,7 @@ def c15(res, tier, seed, replay):
             if m:
                 c, s, e = (int(x) for x in m[-1])
                 cases, same, early = cases + c, same + s, early + e
-    stat = {"insert_ok": 0, "insert_quota": 0, "create_ok": 0, "create_quota": 0, "create_exists": 0, "delete": 0,
+    stat = {"insert_ok": 0, "insert_quota": 0, "create_ok": 0, "create_quota": 0, "create_exists": 0, "delete": 0, "create_races": 0, "race_create_ok": 0, "race_create_quota": 0,
             "inserts_with_failed_ranges": 0, "inserts_spanning_shards": 0, "inserts_opening_shards": 0, "max_shards": 0,
             "histories": 0, "errors": 0}
     distinct = set()
@@ -206,6 +216,16 @@ def c15(res, tier, seed, replay):
                     stat["errors"] += 1
                     err_sample = err_sample or summarize_event(line, 400)
                 cur = {(x["u"], x["c"]): x["k"] for x in e["state"]}
+                if e["ev"] == "CreateRace":
+                    stat["create_races"] = stat.get("create_races", 0) + 1
+                    for r in e["reqs"]:
+                        stat["race_create_" + r["res"]] = stat.get("race_create_" + r["res"], 0) + 1
+                        if r["res"] == "error":
+                            stat["errors"] += 1
+                            err_sample = err_sample or summarize_event(line, 400)
+                    distinct.add(("race", e["maxCols"], sum(1 for k in prev if k[0] == e["u"]), tuple(sorted(r["res"] for r in e["reqs"]))))
+                    prev = cur
+                    continue
                 key = (e["u"], e["c"])
                 if e["ev"] == "Insert":
                     stat["insert_" + e["res"]] = stat.get("insert_" + e["res"], 0) + 1
@@ -247,7 +267,7 @@ def c15(res, tier, seed, replay):
     if not res.violations:
         if cases == 0:
             raise Inconclusive("no placement case reached the trace validator (vacuous)")
-        for k in ("insert_ok", "insert_quota", "create_ok", "create_quota", "inserts_with_failed_ranges",
+        for k in ("insert_ok", "insert_quota", "create_ok", "create_quota", "create_races", "race_create_ok", "race_create_quota", "inserts_with_failed_ranges",
                   "inserts_spanning_shards", "inserts_opening_shards"):
             if stat[k] == 0:
                 raise Inconclusive(f"end-to-end histories never exercised '{k}' (vacuous)")
@@ -259,6 +279,8 @@ def c15(res, tier, seed, replay):
     binding_selftest(res, results, _mut_created, module="PlacementTrace", what="one more shard reported as opened")
     e2e = [r for r in results if r["run"]["name"].startswith("e2e")]
     binding_selftest(res, e2e, _mut_total, module="PlacementTrace", what="a shard's point count one short after an accepted insert")
+    binding_selftest(res, [r for r in e2e if "big" not in r["run"]["name"]], _mut_race_twice, module="PlacementTrace",
+                     what="one name created by two requests of a creation race")
     binding_selftest(res, e2e, _mut_lost, module="PlacementTrace", what="a point of an accepted range found in no shard")
     binding_selftest(res, e2e, _mut_noncontiguous, module="PlacementTrace",
                      what="a shard's share of the id-sorted batch made non-contiguous")
